@@ -60,6 +60,7 @@ func PlanCases(prop, tier string, seed int64) (cases []*Case, rule []string) {
 		add(n(1, 6), "1,200-1,400 documents, a doc-value field whose first 1,024-document chunk is empty, a doc-value field without any term, a merge deleting every document with a value; built, merged, reloaded from a file", func() *Case { return g.EmptyFirstDVChunk(false) })
 		add(n(1, 6), "two segments with 300 fields each (field ids across the 127/128 and 255/256 boundaries, a location in every field): every dictionary opened, merged with a deletion, reloaded", func() *Case { return g.WideSegment() })
 		add(n(3, 12), "a term without locations in two inputs of which only one posting survives, in the document that becomes number 0, while the last input that has the term loses all its postings for it", func() *Case { return g.LastInputDropped() })
+		add(n(7, 14), "the smallest files ice writes (one document with only _id, with or without doc values or stored value, the empty term alone, no _id at all): built, merged, the merge output loaded from memory and from a file", func() *Case { return g.TinyShapes() })
 	case "C03":
 		add(n(140, 2000), "merge with random deletion sets (nil, empty, sparse, dense, everything) and report DocumentNumbers", func() *Case { return g.MergeObs() })
 		add(n(12, 150), "segments with identical field lists merged without deletions (byte-copy path across 128-document blocks): content at the reported numbers", func() *Case { return g.CopyPathMerge() })
